@@ -884,7 +884,7 @@ func (p *Parser) ParseSwitchStatement() (*ast.SwitchStatement, error) {
 			if clause.Test == nil || o.Test == nil || clause.Test.Operator != o.Test.Operator {
 				continue
 			}
-			if clause.Test.Right.String() == o.Test.Right.String() {
+			if caseLabel(clause.Test.Right) == caseLabel(o.Test.Right) {
 				return nil, errors.WithStack(DuplicateCase(clause.Test.Meta))
 			}
 		}
